@@ -19,7 +19,8 @@ PID = "C20"
 PROP_MODULES = ["UsualProofs.Props.C20"]
 WRAPS = ["pthread_mutex_lock", "pthread_mutex_unlock", "pthread_cond_wait", "pthread_cond_signal",
          "pthread_create", "pthread_kill", "getaddrinfo", "malloc", "free"]
-NHOST = 14
+NHOST = 34
+HOSTCH = "0123456789abcdefghijklmnopqrstuvwxyz"
 NPROC = 16
 
 
@@ -63,7 +64,7 @@ def build(ck):
 # ------------------------------------------------------------------ scenarios
 def gen_batch(rng, t, big):
     mode = "W" if rng.chance(1, 5) else "N"
-    sev = rng.choice("n0STTSBB")
+    sev = rng.choice("n0STTSBBAA")
     r = rng.below(10)
     if r < 3:
         n = rng.choice([1, 2, 3])
@@ -71,11 +72,11 @@ def gen_batch(rng, t, big):
         n = rng.choice([15, 16]) if big else rng.choice([4, 5])
     else:
         n = 1 + rng.below(16 if big else 6)
-    hosts = "".join("0123456789abcdef"[rng.below(NHOST)] for _ in range(n))
+    hosts = "".join(HOSTCH[rng.below(NHOST)] for _ in range(n))
     b = "%d%s%s%d:%s" % (t, mode, sev, rng.below(2), hosts)
-    if mode == "N" and sev == "T" and rng.chance(1, 3):
+    if mode == "N" and sev in "TA" and rng.chance(1, 3):
         # chained look-up: the callback itself submits a follow-up GAI_NOWAIT batch
-        b += "+" + rng.choice("n0TT") + "".join("0123456789abcdef"[rng.below(NHOST)] for _ in range(1 + rng.below(4)))
+        b += "+" + rng.choice("n0TT") + "".join(HOSTCH[rng.below(NHOST)] for _ in range(1 + rng.below(4)))
     return b
 
 
@@ -99,18 +100,38 @@ def gen_scn(rng, idx):
     return "scn %d %d %s" % (rng.next() % 1000000007, pert, " ".join(bs))
 
 
+def gen_stream(rng):
+    """long streaming scenario: hundreds of same-size batches per thread, 2-4 in flight"""
+    nthr = 1 + rng.below(2)
+    toks = []
+    for t in range(1, nthr + 1):
+        n = rng.choice([1, 1, 2, 3])
+        sev = rng.choice("AATSB0")
+        hosts = "".join(HOSTCH[rng.below(NHOST)] for _ in range(n))
+        toks.append("w%d=%d" % (t, 2 + rng.below(3)))
+        toks.append("%dN%s0:%s*%d" % (t, sev, hosts, 120 + rng.below(200)))
+    return "scn %d %d %s" % (rng.next() % 1000000007, rng.choice([0, 0, 1]), " ".join(toks))
+
+
+def is_stream(line):
+    return "*" in line
+
+
+def batches_of(line):
+    return [b for b in line.split()[3:] if not b.startswith("w")]
+
+
 def bsize(b):
-    return len(b.partition("+")[0]) - 5
+    return len(b.partition("+")[0].partition("*")[0]) - 5
 
 
 def scn_shape(line):
-    w = line.split()
-    bs = w[3:]
-    return (len({b[0] for b in bs}), tuple(sorted((b[1], b[2], bsize(b), b.partition("+")[2][:1]) for b in bs)))
+    bs = batches_of(line)
+    return (len({b[0] for b in bs}), tuple(sorted((b[1], b[2], bsize(b), b.partition("+")[2][:1], b.partition("*")[2]) for b in bs)))
 
 
 def nontrivial(line):
-    bs = line.split()[3:]
+    bs = batches_of(line)
     return any(b[1] == "N" and bsize(b) >= 2 for b in bs)
 
 
@@ -233,10 +254,17 @@ def shrink_scn(ck, hbin, drv, scn, env, cls, tries=3):
         if changed:
             continue
         for i, b in enumerate(bs):
-            if "+" in b:
+            if b.startswith("w"):
+                continue
+            if "*" in b:
+                base, _, c = b.partition("*")
+                if int(c) <= 1:
+                    continue
+                nb = base + ("*%d" % (int(c) // 2) if int(c) // 2 > 1 else "")
+            elif "+" in b:
                 nb = b.partition("+")[0]
-            elif len(b) - 5 > 1:
-                nb = b[:5] + b[5:5 + max(1, (len(b) - 5) // 2)]
+            elif bsize(b) > 1:
+                nb = b[:5] + b[5:5 + max(1, bsize(b) // 2)]
             else:
                 continue
             if True:
@@ -322,6 +350,9 @@ def run(ck):
     if not ck.proof_ok:
         nq *= 3
     scns = corpus + [gen_scn(rng, i) for i in range(nq)]
+    # long streaming scenarios (hundreds of same-size batches, 2-4 in flight per thread): freed
+    # requests get recycled by the allocator many times over
+    streams = [gen_stream(rng) for _ in range(ck.scale(40, 600))]
     shapes = set()
     for s in scns:
         if nontrivial(s):
@@ -329,8 +360,10 @@ def run(ck):
             ck.distinct(scn_shape(s))
     ck.count(len(scns))
     hist = {"threads": {}, "mode_sev": {}, "size": {}}
+    hist["streaming_scenarios"] = len(streams)
+    hist["streaming_batches"] = sum(int(b.partition("*")[2]) for s in streams for b in batches_of(s))
     for s in scns:
-        bs = s.split()[3:]
+        bs = batches_of(s)
         k = str(len({b[0] for b in bs}))
         hist["threads"][k] = hist["threads"].get(k, 0) + 1
         for b in bs:
@@ -341,7 +374,10 @@ def run(ck):
     ck.cov["scenario_histogram"] = hist
 
     # 1. ASan/UBSan build, trace validation
-    fails = run_scenarios(ck, hbin, drv, scns, env, "asan", stats)
+    ck.count(len(streams))
+    for s in streams:
+        ck.distinct(scn_shape(s))
+    fails = run_scenarios(ck, hbin, drv, scns + streams, env, "asan", stats)
     seen = set()
     nrej = 0
 
